@@ -1216,7 +1216,8 @@ def nontrivial(c, o):
 
 LEVEL_TEXT = ('Machine-checked Coq theorems on the composition of two executable Gallina models (composer, parser state machine): for every message of the composer model with '
 	'Content-Length or chunked framing, every header collection of token names and CR/LF-free values, every body source and every content coder with decomp(comp x) = x, '
-	'the parser model fed the composed octets delivers exactly one message with the same start line, the caller-set fields and the content; the per-piece coding of the pinned '
+	'the parser model fed the composed octets - in one call or under ANY fragmentation, on the reference machine and on the machine as implemented (no hypothesis about the run: nothing '
+	'follows a composed message, so the 411 peek cannot fire, and its start line holds no LF) - delivers exactly one message with the same start line, the caller-set fields and the content; the per-piece coding of the pinned '
 	'tree is stated as it is (multi-piece bodies need a multi-member decoder: true of gzip, false of deflate - finding D42). Both models are tied to /repo on every run '
 	'(tables regenerated, ~2000 compose->parse round trips replayed inside Coq with recorded callee tables).')
 LEVEL_NOTE = ('Trusted: Coq kernel + vm_compute; T1/T2/T3 harness; zlib/gzip, URI composition/parsing and header-semantics hooks are parameters with stated hypotheses. '
